@@ -147,6 +147,14 @@ func (x vfHandle) scalarStr() string {
 	if x.g != nil {
 		return strconv.FormatInt(int64(x.g.Value()), 10)
 	}
+	if x.h != nil && !x.h.isTombstone {
+		// histogram: count / sum / bucket counters
+		bs := make([]string, len(x.h.bucketCount))
+		for i := range x.h.bucketCount {
+			bs[i] = strconv.FormatUint(x.h.bucketCount[i].Load(), 10)
+		}
+		return strconv.FormatUint(x.h.count.Load(), 10) + "/" + strconv.FormatInt(int64(math.Float64frombits(x.h.sumBits.Load())), 10) + "/" + strings.Join(bs, "_")
+	}
 	return strconv.FormatUint(x.scalar(), 10)
 }
 
